@@ -30,14 +30,17 @@ type Script struct {
 	NilOpts     bool     `json:"nil_opts"`
 	Required    []string `json:"required"`
 	Granted     []string `json:"granted"`
-	ExpKind     string   `json:"exp_kind"`   // zero | rel | epoch | far
+	ExpKind     string   `json:"exp_kind"`           // zero | rel | epoch | far
 	FarYear     int      `json:"far_year,omitempty"` // far: the expiry is 31 December of this year (a "never expires" sentinel)
-	ExpRelNS    int64    `json:"exp_rel_ns"` // expiration = now + rel
-	StripMono   bool     `json:"strip_mono"`
-	SkewNS      int64    `json:"skew_ns"`
-	AllowMiss   bool     `json:"allow_missing"`
-	MetaURL     string   `json:"meta_url"`
-	InnerCode   int      `json:"inner_code"`
+	// Outer: the middleware under test sits behind another bearer middleware (a site-wide one in front of the mux,
+	// with its own verifier and token info) that lets every well-formed credential through
+	Outer     bool   `json:"outer,omitempty"`
+	ExpRelNS  int64  `json:"exp_rel_ns"` // expiration = now + rel
+	StripMono bool   `json:"strip_mono"`
+	SkewNS    int64  `json:"skew_ns"`
+	AllowMiss bool   `json:"allow_missing"`
+	MetaURL   string `json:"meta_url"`
+	InnerCode int    `json:"inner_code"`
 	// Earlier: requests served by the SAME wrapped handler before the judged one (each entry is that
 	// request's Authorization header values; an empty entry is a request without the header).
 	Earlier [][]string `json:"earlier,omitempty"`
@@ -110,6 +113,7 @@ func genScript(rt *rapid.T) Script {
 		base := rapid.SampledFrom([]int64{0, -s.SkewNS, s.SkewNS, -int64(time.Hour), int64(time.Hour), -int64(365 * 24 * time.Hour), s.VerifyNS - s.SkewNS, s.VerifyNS - s.SkewNS, s.VerifyNS}).Draw(rt, "expbase")
 		s.ExpRelNS = base + rapid.SampledFrom([]int64{-2, -1, 0, 1, 2}).Draw(rt, "expdelta")
 	}
+	s.Outer = rapid.IntRange(0, 4).Draw(rt, "outer") == 0
 	s.StripMono = rapid.Bool().Draw(rt, "strip")
 	s.AllowMiss = rapid.Bool().Draw(rt, "allow")
 	s.MetaURL = rapid.SampledFrom([]string{"", "https://rs.example/.well-known/oauth-protected-resource", "https://x/y?z=1"}).Draw(rt, "meta")
@@ -355,6 +359,15 @@ func runCase(s Script) (res vt.Result) {
 		w.WriteHeader(s.InnerCode)
 	})
 	h := auth.RequireBearerToken(verifier, opts)(inner)
+	if hdr0 := append([]string{""}, s.Headers...)[len(s.Headers)]; s.Outer && len(s.Headers) == 1 && headerShape(s.Headers) != "grey" {
+		if _, ok := refParse(hdr0); ok {
+			// (only for credentials the outer layer lets through for certain: what is judged is the layer behind it)
+			outerInfo := &auth.TokenInfo{Scopes: []string{"site"}, UserID: "site-wide", Extra: map[string]any{"layer": "outer"}}
+			outerVerifier := func(context.Context, string, *http.Request) (*auth.TokenInfo, error) { return outerInfo, nil }
+			h = auth.RequireBearerToken(outerVerifier, &auth.RequireBearerTokenOptions{AllowMissingExpiration: true})(h)
+			res.Class("behind_an_outer_bearer_middleware")
+		}
+	}
 	for _, hs := range s.Earlier {
 		ereq := httptest.NewRequest("POST", "http://rs.example/mcp", strings.NewReader("{}"))
 		for _, v := range hs {
